@@ -373,6 +373,12 @@ func (group *Group) addIn() {
 
 // delIn 有pub或pull的输入型session离开时，需要调用该函数
 func (group *Group) delIn() {
+	// hand the tail that is still buffered for merged writing to the subscribers now: otherwise it
+	// is held back until (and then mixed into) the data of whoever publishes this stream next
+	if group.rtmpMergeWriter != nil {
+		group.rtmpMergeWriter.Flush()
+	}
+
 	// 注意，remuxer放前面，使得有机会将内部缓存的数据吐出来
 	if group.rtmp2MpegtsRemuxer != nil {
 		group.rtmp2MpegtsRemuxer.Dispose()
